@@ -214,7 +214,7 @@ def workbook_configs(chk):
         beads = []
         for j, ins in enumerate(insts):
             fl = xw.INSTR[ins]['fl']
-            cl = [fl[:1], fl, fl + xw.INSTR[ins]['extra']][(i + j + 1) % 3]
+            cl = [fl[:1], fl, fl + xw.INSTR[ins]['extra'], fl + xw.INSTR[ins]['extra'] + xw.INSTR[ins]['sc'][1:]][(i + j + 2) % 4]   # 1..4 channels
             beads.append(dict(id='B%s%d' % (ins, j), inst=ins, cluster=cl))
         if i % 5 == 4:
             beads = []
